@@ -127,8 +127,9 @@ var c13Cfg = &errflowCfg{
 	},
 }
 
-func ruleC13a(c *Ctx) {
-	const rule = "C13.a"
+func ruleC13a(c *Ctx) { ruleC13aAs(c, "C13.a") }
+
+func ruleC13aAs(c *Ctx, rule string) {
 	c.describe(rule, "errflow E1+E2: at every call site of a query-result producer (Iterate implementations/interface calls, QueryClusterFN values, table/rowStore/fileStore.iterate, Tree.Walk, runSubQueries) the error is not dropped and on every path where it may be non-nil it reaches the caller or a failure sink")
 	n := 0
 	for _, fn := range c.P.ModFns {
